@@ -12,7 +12,7 @@ Definition hyp_gen_ok (c : tg_case) : bool :=
   match tg_gen c with OOk _ => true | _ => false end.
 
 Definition corr_case (c : tg_case) : bool :=
-  corr_ops c && corr_gen c && corr_paths c && corr_upcasts c.
+  corr_ops c && corr_gen c && corr_paths c && corr_upcasts c && corr_dedup_obs c.
 
 Definition corr_pair (p : tg_pair) : bool := corr_case (tp_a p) && corr_case (tp_b p).
 
@@ -358,7 +358,14 @@ Definition prop_fault_expect (c : tg_case) : bool :=
       match tg_gen c with
       | OErr k' nums' _ => String.eqb k k' && list_eqb N.eqb nums nums'
       | _ => false
-      end
+      end &&
+      (* the id-mismatch error is reported by de-duplication as well *)
+      (if String.eqb k "RegistryTypeIdsInvalid" then
+         match tg_dedup c with
+         | OErr k' nums' _ => String.eqb k k' && list_eqb N.eqb nums nums'
+         | _ => false
+         end
+       else true)
   end.
 
 (** decidable well-formedness of the input (DESIGN 3.1 / 3.2, the clauses generation depends on):
@@ -375,7 +382,8 @@ Definition prop_wf_total (c : tg_case) : bool :=
     | OErr k _ _ => String.eqb k "DuplicateTypePath"
     | OPanic => false
     end &&
-    forallb (fun o => match o with OOk _ => true | _ => false end) (tg_paths c)
+    forallb (fun o => match o with OOk _ => true | _ => false end) (tg_paths c) &&
+    match tg_dedup c with OOk _ => true | _ => false end
   else true.
 
 (** ** C18: standalone structs *)
